@@ -9,6 +9,7 @@ import (
 	"encoding/json"
 	"errors"
 	"fmt"
+	"reflect"
 	"sort"
 	"strings"
 	"sync"
@@ -82,6 +83,9 @@ type Env struct {
 	closed  bool
 	pollerBusy bool
 	readers []*reader
+	parked  map[string]chan struct{}
+	active  map[string]bool // API callers with a call in progress
+	structs []any
 }
 
 // reader: a goroutine that calls handles concurrently with whatever the store is doing. It runs
@@ -171,6 +175,12 @@ func (e *Env) Cleanup() {
 	for _, c := range cs {
 		c()
 	}
+	e.mu.Lock()
+	for k, g := range e.parked {
+		close(g)
+		delete(e.parked, k)
+	}
+	e.mu.Unlock()
 	for i := 0; i < 200; i++ {
 		synctest.Wait()
 		pend := e.Pending()
@@ -199,7 +209,7 @@ func (e *Env) Cleanup() {
 
 func NewEnv(names []string) *Env {
 	e := &Env{start: time.Now(), svc: map[string]*svcState{}, pend: map[string]*pending{}, handles: map[string]setec.Secret{},
-		cancels: map[string]context.CancelFunc{}}
+		cancels: map[string]context.CancelFunc{}, parked: map[string]chan struct{}{}, active: map[string]bool{}}
 	for _, n := range names {
 		e.svc[n] = &svcState{ver: 1, mode: "ok"}
 	}
@@ -236,42 +246,43 @@ var errService = errors.New("service unavailable (scripted)")
 func (c client) do(ctx context.Context, kind, name string, old int) (*api.SecretValue, error) {
 	e := c.e
 	p := &pending{name: name, kind: kind, old: old, release: make(chan bool, 1), done: make(chan struct{})}
+	key := name + "/" + kind
 	e.mu.Lock()
-	if _, dup := e.pend[name]; dup {
+	if _, dup := e.pend[key]; dup {
 		e.mu.Unlock()
 		e.Log(Event{"ev": "req", "name": name, "kind": kind, "old": old, "dup": true})
-		e.Note("second request for %q while one is in flight", name)
+		e.Note("second %s request for %q while one is in flight", kind, name)
 		return nil, errService
 	}
-	e.pend[name] = p
+	e.pend[key] = p
 	e.mu.Unlock()
 	e.Log(Event{"ev": "req", "name": name, "kind": kind, "old": old})
 	defer func() {
 		e.mu.Lock()
-		delete(e.pend, name)
+		delete(e.pend, key)
 		e.mu.Unlock()
 		close(p.done)
 	}()
 	select {
 	case <-ctx.Done():
-		e.Log(Event{"ev": "resp", "name": name, "res": ctxRes(kind), "ver": 0})
+		e.Log(Event{"ev": "resp", "name": name, "kind": kind, "res": ctxRes(kind), "ver": 0})
 		return nil, ctx.Err()
 	case forceErr := <-p.release:
 		e.mu.Lock()
 		s := e.svc[name]
 		e.mu.Unlock()
 		if forceErr || s == nil || s.mode == "fail" || s.ver == 0 {
-			e.Log(Event{"ev": "resp", "name": name, "res": "err", "ver": 0})
+			e.Log(Event{"ev": "resp", "name": name, "kind": kind, "res": "err", "ver": 0})
 			if s != nil && s.ver == 0 && !forceErr {
 				return nil, api.ErrNotFound
 			}
 			return nil, errService
 		}
 		if kind == "gic" && s.ver == old {
-			e.Log(Event{"ev": "resp", "name": name, "res": "same", "ver": 0})
+			e.Log(Event{"ev": "resp", "name": name, "kind": kind, "res": "same", "ver": 0})
 			return nil, api.ErrValueNotChanged
 		}
-		e.Log(Event{"ev": "resp", "name": name, "res": "val", "ver": s.ver})
+		e.Log(Event{"ev": "resp", "name": name, "kind": kind, "res": "val", "ver": s.ver})
 		return &api.SecretValue{Value: Value(name, s.ver), Version: api.SecretVersion(s.ver)}, nil
 	}
 }
@@ -410,6 +421,19 @@ type Step struct {
 	ForceErr    bool     `json:"forceerr,omitempty"`
 	WFail       bool     `json:"wfail,omitempty"`
 	Raw         string   `json:"raw,omitempty"` // raw cache bytes (malformed-input runs)
+	Park        bool     `json:"park,omitempty"` // lookup: hold the caller between the known-check and the flight
+	StructNames []string `json:"structnames,omitempty"` // newstore: names declared through a tagged struct instead of Secrets
+}
+
+// parkCtx blocks in Deadline() until the driver opens the gate.
+type parkCtx struct {
+	context.Context
+	gate chan struct{}
+}
+
+func (p parkCtx) Deadline() (time.Time, bool) {
+	<-p.gate
+	return p.Context.Deadline()
 }
 
 func (e *Env) renderDoc(doc []docEntry) []byte {
@@ -433,10 +457,29 @@ func (e *Env) Apply(s Step) bool {
 	switch s.Do {
 	case "newstore", "restart":
 		restart := s.Do == "restart"
+		if restart {
+			// a successor process starts when the old one is quiet (the model restarts between calls)
+			e.mu.Lock()
+			quiet := len(e.pend) == 0 && len(e.active) == 0 && !e.pollerBusy && len(e.parked) == 0 && e.store != nil
+			e.mu.Unlock()
+			if !quiet {
+				return false
+			}
+		}
 		cfg := setec.StoreConfig{Client: client{e}, Secrets: append([]string(nil), s.Declared...), AllowLookup: s.AllowLookup,
 			ExpiryAge: time.Duration(s.Expiry) * time.Millisecond, PollInterval: -1, Logf: func(string, ...any) {}}
 		e.closed = false
 		e.pollerBusy = false
+		if len(s.StructNames) > 0 {
+			// a struct with one string field per name, tagged setec:"<name>"; its names join the declared set
+			var fs []reflect.StructField
+			for i, n := range s.StructNames {
+				fs = append(fs, reflect.StructField{Name: fmt.Sprintf("F%d", i), Type: reflect.TypeOf(""), Tag: reflect.StructTag(fmt.Sprintf(`setec:%q`, n))})
+			}
+			v := reflect.New(reflect.StructOf(fs))
+			cfg.Structs = append(cfg.Structs, setec.Struct{Value: v.Interface()})
+			e.structs = append(e.structs, v.Interface())
+		}
 		if restart {
 			// same cache object, everything else as given; the old store is abandoned
 			e.mu.Lock()
@@ -499,7 +542,7 @@ func (e *Env) Apply(s Step) bool {
 		e.mu.Lock()
 		e.cancels["\x00newstore"] = cancelNew
 		e.mu.Unlock()
-		decl := dedupe(s.Declared)
+		decl := dedupe(append(append([]string(nil), s.Declared...), s.StructNames...))
 		e.Log(Event{"ev": "newstore", "declared": decl, "allowlookup": s.AllowLookup, "expiry": s.Expiry, "auto": s.Auto, "bad": bad,
 			"fileclient": false, "deadline": s.Deadline, "cache": map[string]any{"kind": kind, "doc": doc, "wfail": e.cache != nil && e.cache.wfail}})
 		go func() {
@@ -524,7 +567,7 @@ func (e *Env) Apply(s Step) bool {
 			}
 			e.Log(Event{"ev": "ret", "call": "newstore", "caller": "", "res": res})
 		}()
-	case "respond":
+	case "respond": // Name is a key of Pending(): "<name>/<kind>"
 		e.mu.Lock()
 		p := e.pend[s.Name]
 		e.mu.Unlock()
@@ -553,13 +596,36 @@ func (e *Env) Apply(s Step) bool {
 		if st == nil {
 			return false
 		}
-		e.Log(Event{"ev": "refresh", "caller": s.Caller})
+		ctx, cancel := context.WithCancel(context.Background())
+		if s.Deadline > 0 {
+			ctx, cancel = context.WithTimeout(context.Background(), time.Duration(s.Deadline)*time.Millisecond)
+		}
+		e.mu.Lock()
+		if e.active[s.Caller] {
+			e.mu.Unlock()
+			cancel()
+			return false // this caller is still in a call
+		}
+		e.active[s.Caller] = true
+		e.cancels[s.Caller] = cancel
+		e.mu.Unlock()
+		e.Log(Event{"ev": "refresh", "caller": s.Caller, "deadline": s.Deadline})
 		go func() {
-			err := st.Refresh(context.Background())
+			err := st.Refresh(ctx)
 			res := "ok"
 			if err != nil {
 				res = "err"
+				if err == context.Canceled || err == context.DeadlineExceeded {
+					res = "ctx" // the caller's own context ended (Refresh returns it bare); a failed round is wrapped
+					if ctx.Err() == nil {
+						res = "ctx-foreign"
+					}
+				}
 			}
+			e.mu.Lock()
+			delete(e.cancels, s.Caller)
+			delete(e.active, s.Caller)
+			e.mu.Unlock()
 			e.Log(Event{"ev": "ret", "call": "refresh", "caller": s.Caller, "res": res})
 		}()
 	case "tick":
@@ -616,6 +682,15 @@ func (e *Env) Apply(s Step) bool {
 			e.Note("calling the handle of %q blocked (it waited for something)", s.Name)
 			e.Log(Event{"ev": "read", "name": s.Name, "ver": -2})
 		}
+	case "unpark":
+		e.mu.Lock()
+		g := e.parked[s.Caller]
+		delete(e.parked, s.Caller)
+		e.mu.Unlock()
+		if g == nil {
+			return false
+		}
+		close(g)
 	case "lookup":
 		st := e.theStore()
 		if st == nil {
@@ -624,6 +699,23 @@ func (e *Env) Apply(s Step) bool {
 		ctx, cancel := context.WithCancel(context.Background())
 		if s.Deadline > 0 {
 			ctx, cancel = context.WithTimeout(context.Background(), time.Duration(s.Deadline)*time.Millisecond)
+		}
+		e.mu.Lock()
+		if e.active[s.Caller] {
+			e.mu.Unlock()
+			cancel()
+			return false // this caller is still in a call
+		}
+		e.active[s.Caller] = true
+		e.mu.Unlock()
+		if s.Park {
+			// a scheduling gate between "the name is not known" and entering the flight for it: the store asks
+			// the context for its deadline exactly there
+			g := make(chan struct{})
+			e.mu.Lock()
+			e.parked[s.Caller] = g
+			e.mu.Unlock()
+			ctx = parkCtx{Context: ctx, gate: g}
 		}
 		e.mu.Lock()
 		e.cancels[s.Caller] = cancel
@@ -658,18 +750,25 @@ func (e *Env) Apply(s Step) bool {
 			}
 			e.mu.Lock()
 			delete(e.cancels, s.Caller)
+			delete(e.active, s.Caller)
 			e.mu.Unlock()
 			e.Log(Event{"ev": "ret", "call": "lookup", "caller": s.Caller, "res": res})
 		}()
 	case "cancel":
 		e.mu.Lock()
 		c := e.cancels[s.Caller]
+		delete(e.cancels, s.Caller) // a context is cancelled once
+		g := e.parked[s.Caller]
+		delete(e.parked, s.Caller)
 		e.mu.Unlock()
 		if c == nil {
 			return false
 		}
 		e.Log(Event{"ev": "cancel", "caller": s.Caller})
 		c()
+		if g != nil {
+			close(g) // a caller held at the gate goes on (with its dead context)
+		}
 	case "close":
 		st := e.theStore()
 		if st == nil {
@@ -691,6 +790,23 @@ func (e *Env) Apply(s Step) bool {
 		panic("unknown step " + s.Do)
 	}
 	return true
+}
+
+// UnparkAll lets every caller held at the gate go on, one at a time.
+func (e *Env) UnparkAll() {
+	for {
+		e.mu.Lock()
+		var ps []string
+		for k := range e.parked {
+			ps = append(ps, k)
+		}
+		e.mu.Unlock()
+		if len(ps) == 0 {
+			return
+		}
+		sort.Strings(ps)
+		e.Apply(Step{Do: "unpark", Caller: ps[0]})
+	}
 }
 
 func (e *Env) theStore() *setec.Store { e.mu.Lock(); defer e.mu.Unlock(); return e.store }
